@@ -226,6 +226,13 @@ def shape_ops_case(cls, dim, sx, seed):
                     bad = chk("stack(iterate)", cc.lib_class(cls)(items), sx, range(1, n + 1))
                     if bad:
                         return cnt, bad
+                    # the same stack from a tuple and from one-shot iterables of the unit objects
+                    for how, make in (("tuple", lambda: tuple(items)), ("iterator", lambda: iter(items)),
+                                      ("generator", lambda: (it for it in items)), ("map", lambda: map(lambda it: it, items))):
+                        cnt += 1
+                        bad = chk("stack(%s)" % how, cc.lib_class(cls)(make()), sx, range(1, n + 1))
+                        if bad:
+                            return cnt, bad
                     for (a, b, e) in rec["slices"]:
                         cnt += 1
                         bad = chk("slice[%d:%d]" % (a, b), X[a:b], e["shape"], e["cell"])
@@ -253,6 +260,21 @@ def shape_ops_case(cls, dim, sx, seed):
                                           [allids[c - 1] for c in exp["cell"]], recompute=False)
                     if bad:
                         return cnt, ("combine([X, Y%r]):" % (tuple(s2),) + bad[0], bad[1])
+                # lists of one and of three operands
+                C_ = cc.lib_class(cls)
+                cnt += 1
+                bad = chk("combine([X])", C_.combine([X]), rec["combine1"]["shape"], rec["combine1"]["cell"])
+                if bad:
+                    return cnt, bad
+                ids3 = [rng.randrange(K) + 1 for _ in range(3)]
+                Y3, _ = cc.build(TABS, cls, dim, (2,), ids3[:2])
+                Z3, _ = cc.build(TABS, cls, dim, (), ids3[2:])
+                all3 = ids + ids3
+                cnt += 1
+                bad = cc.check_object(TABS, C_.combine([X, Y3, Z3]), cls, dim, tuple(rec["combine3"]["shape"]),
+                                      [all3[c - 1] for c in rec["combine3"]["cell"]], recompute=False)
+                if bad:
+                    return cnt, ("combine([X, Y, Z]):" + bad[0], bad[1])
                 X2, _ = cc.build(TABS, cls, dim, sx, ids2)
                 cnt += 1
                 st2 = rec["stack2"]
@@ -412,6 +434,18 @@ def _ops():
             return {"center": ("num", c), "radius": ("num", r), "thetas": (kind, th)}
         ops["BoundaryArc(Geodesic ends).circle_parameters(%s)" % tag] = ("Geodesic", 1, None, g, (2,))
 
+    for tag, m in (("poincare", M.POINCARE), ("halfspace", M.HALFSPACE)):
+        def f(x, m=m):
+            c, r = x.sphere_parameters(m)
+            return {"center": ("num", c), "radius": ("num", r), "ideal_basis_coords": ("num", x.ideal_basis_coords(m)),
+                    "ideal_basis": ("num", x.ideal_basis)}
+        ops["Subspace.sphere_parameters(%s)" % tag] = ("Subspace", 1, None, f, (2, 3))
+
+    @op("Subspace.reflection_across", "Subspace")
+    def _(x):
+        return {"reflection": ("num", x.reflection_across().proj_data),
+                "spacelike_complement": ("proj", x.spacelike_complement().proj_data)}
+
     @op("Isometry.fixed_points", "Isometry")
     def _(x):
         return {"fixed_point_pair": ("proj", x.fixed_point_pair().proj_data), "fixed_point": ("proj", x.fixed_point().proj_data),
@@ -519,6 +553,15 @@ def query_case(name, dim, sx, sy, seed, mixed=False):
                     eshape = tuple(sx)
                     pairs = [(i, None, sg, False) for i, sg in zip(xids, xneg)]
             except Exception as e:
+                # the call is outside its domain iff it also fails on one of the unit objects alone (a degenerate unit,
+                # e.g. a plane through the point at infinity of the half-space model); otherwise the composite misbehaves
+                try:
+                    prs = ([(i, None, sg, False) for i, sg in zip(xids, xneg)] if arity == 1 else
+                           [(xids[c[0] - 1], yids[c[1] - 1], xneg[c[0] - 1], yneg[c[1] - 1]) for c in TABS.apply[(sx, sy)]["ew"]["cell"]])
+                    for (a, b, nx, ny) in prs:
+                        unit_result(name, dim, a, b, nx, ny)
+                except Exception:
+                    return None
                 return ("raised", "%s: %s" % (type(e).__name__, e))
             units = [unit_result(name, dim, a, b, nx, ny) for (a, b, nx, ny) in pairs]
     for part, (kind, arr) in res.items():
@@ -677,6 +720,59 @@ def eigenvector_case(dim, s, seed):
     return None
 
 
+def convert_case(c1, c2, dim, sx, seed):
+    """C2(object of class C1) keeps the primary data and nothing else: it is what C2 builds from that data (no derived
+    data for a class that has none), and it behaves like it under the shape operations and under application"""
+    C1, C2 = cc.lib_class(c1), cc.lib_class(c2)
+    rng = rng_for(seed, "convert", c1, c2, dim, sx)
+    ids = [rng.randrange(TABS.K) + 1 for _ in range(size(sx))]
+    X, _ = cc.build(TABS, c1, dim, sx, ids)
+
+    def same(what, A, B):
+        if type(A) is not type(B):
+            return (what + ".class", "%s vs %s" % (type(A).__name__, type(B).__name__))
+        if tuple(A.shape) != tuple(B.shape) or A.proj_data.shape != B.proj_data.shape:
+            return (what + ".shape", "%r / %r vs from primary data %r / %r" % (tuple(A.shape), A.proj_data.shape, tuple(B.shape), B.proj_data.shape))
+        if not np.allclose(A.proj_data, B.proj_data, rtol=1e-12, atol=0, equal_nan=True):
+            return (what + ".proj_data", "differs from what the class builds from the primary data")
+        if (A.aux_data is None) != (B.aux_data is None):
+            return (what + ".aux_data", "derived data %s, from primary data %s" % (
+                "present " + str(A.aux_data.shape) if A.aux_data is not None else "absent",
+                "present" if B.aux_data is not None else "absent"))
+        if A.aux_data is not None:
+            if A.aux_data.shape != B.aux_data.shape or not np.allclose(A.aux_data, B.aux_data, rtol=1e-9, atol=1e-9, equal_nan=True):
+                return (what + ".aux_data", "derived data differs from what the class computes from the primary data")
+        return None
+    with warnings.catch_warnings():
+        warnings.simplefilter("ignore")
+        with np.errstate(all="ignore"):
+            try:
+                Y0 = C2(np.array(X.proj_data))
+            except Exception:
+                return None                      # the class does not accept this data: outside the domain
+            try:
+                Y = C2(X)
+                bad = same("%s(%s)" % (c2, c1), Y, Y0)
+                if bad:
+                    return bad
+                n = size(tuple(Y0.shape))
+                T1 = cc.build_trans(TABS, c2, dim, (), [1 + rng.randrange(cc.letters(c2))])
+                T2 = cc.build_trans(TABS, c2, dim, (2,), [1, 2])
+                for what, f in (("flatten_to_unit", lambda o: o.flatten_to_unit()), ("reshape", lambda o: o.reshape((n,))),
+                                ("T @ .", lambda o: T1 @ o), ("T.apply(., pairwise)", lambda o: T2.apply(o, broadcast="pairwise")),
+                                ("[...] of flattened", lambda o: o.flatten_to_unit()[0])):
+                    try:
+                        want = f(Y0)
+                    except Exception:
+                        continue
+                    bad = same("%s(%s).%s" % (c2, c1, what), f(Y), want)
+                    if bad:
+                        return bad
+            except Exception as e:
+                return ("%s(%s).raised" % (c2, c1), "%s: %s" % (type(e).__name__, e))
+    return None
+
+
 def query_chunk(args):
     cases, seed = args
     global OPS
@@ -695,6 +791,9 @@ def query_chunk(args):
                 bad = sl2_case(c[1], c[2], seed)
             elif c[0] == "Transformation.eigenvector":
                 bad = eigenvector_case(c[1], c[2], seed)
+            elif c[0].startswith("convert:"):
+                _, c1, c2 = c[0].split(":")
+                bad = convert_case(c1, c2, c[1], c[2], seed)
             else:
                 bad = query_case(c[0], c[1], c[2], c[3], seed, mixed=len(c) > 4 and c[4])
         except core.MachineryFailure:
@@ -739,6 +838,10 @@ def run(run, replay=None):
         "classes: projective Point, PointPair, Polygon(aux rank 3), Transformation; hyperbolic Point, Geodesic, "
         "Segment(aux rank 2), TangentVector(aux rank 2), Polygon(aux rank 3), Isometry, Horosphere, HorosphereArc (units "
         "on horospheres based at different ideal points); BoundaryArc built from composite end points; dimensions 2 and 3",
+        "hyperbolic Subspace given by ideal points (geodesics of the plane, planes of 3-space); stacking from lists, tuples "
+        "and one-shot iterables; combine of 1, 2 and 3 operands; conversions C2(object of C1) for the class pairs listed by "
+        "CompUnits.tla (result = what C2 builds from the primary data, then shape operations and application)",
+        "a query that raises on a composite is outside its domain iff it also raises on one of the unit objects alone",
         "a segment's two ideal endpoints are compared in order (first the one beyond end point 0)",
         "the SL(2) maps: sl2_to_so21, from_sl2, sl2_iso, sl2_irrep on SL(2,Z) and sl2c_to_so31, sl2c_herm_action, "
         "slc_to_slr, sl2_irrep on SL(2,Z[i]), arrays of every shape of rank <= 3",
@@ -813,6 +916,11 @@ def run(run, replay=None):
         for s in shapes:
             if len(s) <= 2:
                 cases.append(("Polygon(points)", dim, s, None))
+    for (c1, c2) in TABS.converts:
+        for dim in (2, 3):
+            for s in shapes:
+                if len(s) <= 2:
+                    cases.append(("convert:%s:%s" % (c1, c2), dim, s, None))
     for s in shapes:
         cases.append(("SL(2) maps", 2, s, None))
         for dim in (2, 3):
